@@ -271,7 +271,10 @@ class Ctx:
             "violations": len(self.violations), "known_findings": self.known, "notes": self.notes,
         }
         os.makedirs(os.path.join(VERIF, "evidence"), exist_ok=True)
-        with open(os.path.join(VERIF, "evidence", self.pid + ".json"), "w") as fh:
+        # evidence/<id>.json describes runs against /repo itself; a run against another tree
+        # (VERIF_REPO: seeded-change worktrees) must never overwrite it
+        target = os.path.join(VERIF, "evidence", self.pid + ".json") if self.repo == "/repo" else os.path.join(self.outdir, "evidence-alt-tree.json")
+        with open(target, "w") as fh:
             json.dump(ev, fh, indent=1)
 
     def exit_code(self):
